@@ -125,6 +125,15 @@ row("vec_res", "std::vector<int> {n}(int n)", langs=CXX, wraps=CF, doc="vectors.
 row("enum_fn", [{"decl": "enum {n}_Color {{ {n}_RED, {n}_BLUE = 5, {n}_WHITE }}"},
                 {"decl": "{n}_Color {n}({n}_Color c)", "c_only_decl": "enum {n}_Color {n}(enum {n}_Color c)"}],
     wraps=CFP, doc="tutorial.yaml colorfunc; enum.yaml")
+# several user types whose header is the same for C and C++ (docs/typemaps.rst fields c_header / cxx_header): the
+# generated header needs all of them at once, in declaration order
+row("typedef_headers", [{"decl": "typedef int {n}_A", "fields": {"c_header": "{n}_alpha.h", "cxx_header": "{n}_alpha.h"}},
+                        {"decl": "typedef int {n}_B", "fields": {"c_header": "{n}_beta.h", "cxx_header": "{n}_beta.h"}},
+                        {"decl": "typedef double {n}_C", "fields": {"c_header": "{n}_gamma.h", "cxx_header": "{n}_gamma.h"}},
+                        {"decl": "typedef long {n}_D", "fields": {"c_header": "{n}_delta.h", "cxx_header": "{n}_delta.h"}},
+                        {"decl": "typedef int {n}_E", "fields": {"c_header": "{n}_eps.h", "cxx_header": "{n}_eps.hpp"}},
+                        {"decl": "{n}_A {n}({n}_B b, {n}_C c, {n}_D d, {n}_E e, {n}_A a)"}], wraps=CF,
+    doc="docs/typemaps.rst; regression include.yaml CustomType")
 row("typedef_fn", [{"decl": "typedef int {n}_ID"}, {"decl": "{n}_ID {n}({n}_ID a)"}], wraps=CFP,
     doc="tutorial.yaml typefunc")
 # ---- struct
